@@ -165,30 +165,28 @@ def handle (line : Json) : Json :=
     let stepsJ := arrD impl "steps"
     -- walk: model state and the implementation's observed state side by side
     let init : State := {}
-    let (_, _, outRev, traceRev, pathsRev, bad) :=
-      (opsJ.zip stepsJ).foldl (fun (acc : State × State × List Json × List (Op × Res × State) × List String × Option String) (oj, sj) =>
-        let (ms, is, out, tr, ps, bad) := acc
+    let (_, _, outRev, traceRev, mtraceRev, pathsRev, bad) :=
+      (opsJ.zip stepsJ).foldl (fun (acc : State × State × List Json × List (Op × Res × State) × List (Op × Res × State) × List String × Option String) (oj, sj) =>
+        let (ms, is, out, tr, mtr, ps, bad) := acc
         let cands := strs (arrD sj "cands")
         match parseOp oj (obj? sj "arg") cands with
-        | none => (ms, is, out, tr, ps, some "unparsed op")
+        | none => (ms, is, out, tr, mtr, ps, some "unparsed op")
         | some op =>
           let (r, ms') := step K cfg ms op
           let counts := watch.map (fun w => cnt ms'.sdb w)
           let o := Json.mkObj [("res", resJson r), ("delta", jarr (deltaOf ms.db ms'.db)), ("counts", jnats counts)]
           let is' : State := { db := applyDelta is.db (arrD sj "delta"), sdb := sdbOf watch (natList sj "counts") }
           let ir := parseRes ((obj? sj "res").getD Json.null)
-          (ms', is', o :: out, (op, ir, is') :: tr, stepPath K ms op r ms' :: ps, bad))
-        (init, init, [], [], [], none)
+          (ms', is', o :: out, (op, ir, is') :: tr, (op, r, ms') :: mtr, stepPath K ms op r ms' :: ps, bad))
+        (init, init, [], [], [], [], none)
     let trace := traceRev.reverse
-    let constsOk := K.persistent != K.transient
+    let mtrace := mtraceRev.reverse
+    let constsOk := !K.persistent.isEmpty && K.persistent != K.transient
     let specImpl := constsOk && bad.isNone && opsJ.length == stepsJ.length && specTrace K cfg users watch init trace
-    -- the model's own trace
-    let mtrace : List (Op × Res × State) :=
-      let rec go (st : State) : List (Op × Res × State) → List (Op × Res × State)
-        | [] => []
-        | (op, _, _) :: rest => let (r, st') := step K cfg st op; (op, r, st') :: go st' rest
-      go init trace
-    let specModel := constsOk && specTrace K cfg users watch init mtrace
+    let sameTrace := mtrace.length == trace.length &&
+      (mtrace.zip trace).all fun (a, b) => (a.2.1 == b.2.1 || (match a.2.1, b.2.1 with | .refused _, .refused _ => true | _, _ => false)) && (deltaOf a.2.2.db b.2.2.db).isEmpty && watch.map (cnt a.2.2.sdb) == watch.map (cnt b.2.2.sdb)
+    let specModel := if sameTrace && bad.isNone && opsJ.length == stepsJ.length then specImpl
+      else constsOk && specTrace K cfg users watch init mtrace
     -- first step at which the implementation's trace fails, for the replay file
     let why : Option String :=
       if specImpl then none else
@@ -197,7 +195,7 @@ def handle (line : Json) : Json :=
           | (op, res, Q) :: rest =>
             if opOk users cfg op && stOk K cfg P.db op then
               if specStep K users watch P op res Q then find Q (i + 1) rest
-              else s!"step {i}: rev={revOk users Q.db} distinct={distinctOk users Q.db} frame={frameOk K users P.db Q.db op res} res={resOk K users P.db Q.db op res} sdb={sdbOk watch P Q op res}"
+              else s!"step {i}: rev={revOk users Q.db} distinct={distinctOk users Q.db} unique={uniqueRegOk K users Q.db} frame={frameOk users P.db Q.db op res} res={resOk K users P.db Q.db op res} sdb={sdbOk watch P Q op res}"
             else "out of scope"
         some (find init 0 trace)
     let scope : String :=
@@ -205,13 +203,8 @@ def handle (line : Json) : Json :=
         | [] => true
         | (op, _, Q) :: rest => if opOk users cfg op && stOk K cfg P.db op then lv Q rest else false
       if lv init mtrace then "hist/in-scope" else "hist/leaves-scope"
-    let dbl : Bool :=
-      let rec anyDbl : List (Op × Res × State) → Bool
-        | [] => false
-        | (_, _, Q) :: rest => !uniqueRegOk K users Q.db || anyDbl rest
-      anyDbl mtrace
     Json.mkObj ([("model", Json.mkObj [("steps", jarr outRev.reverse)]),
-      ("path", Json.str (scope ++ (if dbl then "+double-reg" else ""))),
+      ("path", Json.str scope),
       ("paths", jarr (pathsRev.reverse.map Json.str)),
       ("spec_model", specModel), ("spec_impl", specImpl)] ++
       (match why with | some w => [("why", Json.str w)] | none => []))
